@@ -145,3 +145,28 @@ sized!(array_extract__borrowed_n0, extract_borrowed, 0, 3);
 sized!(array_extract__borrowed_n1, extract_borrowed, 1, 4);
 sized!(array_extract__borrowed_n3, extract_borrowed, 3, 6);
 
+
+// with the mem::drop contract stub (see lhs_types/verif_kani/common.rs)
+#[kani::proof]
+#[kani::stub(std::mem::drop, crate::lhs_types::verif_kani::common::mem_drop__releases_nothing_observable)]
+#[kani::solver(minisat)]
+#[kani::unwind(3)]
+fn array_extract__owned_out_of_range_n2() {
+    extract_owned_out_of_range::<2>()
+}
+
+#[kani::proof]
+#[kani::stub(std::mem::drop, crate::lhs_types::verif_kani::common::mem_drop__releases_nothing_observable)]
+#[kani::solver(minisat)]
+#[kani::unwind(3)]
+fn array_extract__owned_n2_at0() {
+    extract_owned_at::<2, 0>()
+}
+
+#[kani::proof]
+#[kani::stub(std::mem::drop, crate::lhs_types::verif_kani::common::mem_drop__releases_nothing_observable)]
+#[kani::solver(minisat)]
+#[kani::unwind(3)]
+fn array_extract__owned_n2_at1() {
+    extract_owned_at::<2, 1>()
+}
